@@ -71,21 +71,10 @@ fn kuznyechik(t: &mut T) {
             ok &= kz::gf_mul(x, y) == mul_ref(x, y);
         }
     }
-    // word formulation of L / L^-1 (parity masks) == octet formulation R^16 / (R^-1)^16
-    for p in 0..16 {
+    for j in 0..16 {
         for v in 0..=255u8 {
-            let mut a = [0u8; 16];
-            a[p] = v;
-            ok &= kz::l(&a) == kz::l_octets(&a) && kz::l_inv(&a) == kz::l_inv_octets(&a);
+            ok &= kz::mul_lc(j, v) == kz::gf_mul(kz::LC[j], v);
         }
-    }
-    for n in 0..4096u32 {
-        for (i, x) in a.iter_mut().enumerate() {
-            *x = (n.wrapping_mul(0x9E3779B1).rotate_left(3 * i as u32) ^ (i as u32 * 131)) as u8;
-        }
-        ok &= kz::l(&a) == kz::l_octets(&a) && kz::l_inv(&a) == kz::l_inv_octets(&a);
-        ok &= kz::r_word(u128::from_be_bytes(a)).to_be_bytes() == kz::r(&a);
-        ok &= kz::r_inv_word(u128::from_be_bytes(a)).to_be_bytes() == kz::r_inv(&a);
     }
     t.check("kuznyechik l forms, gf_mul", ok);
     let r_chain = [
